@@ -269,6 +269,18 @@ func validClient(r *vlib.Rand, nat string) []byte {
 	if nat != "" {
 		m["nat"] = nat
 	}
+	// the bridge the client names: none (default), the listed one, well-formed ones the
+	// broker does not know (20 and 32 bytes), and ill-formed ones
+	switch r.Intn(8) {
+	case 0:
+		m["fingerprint"] = "2B280B23E1107BB62ABFC40DDCC8824814F80A72"
+	case 1:
+		m["fingerprint"] = strings.ToUpper(fmt.Sprintf("%x", r.Bytes(20)))
+	case 2:
+		m["fingerprint"] = fmt.Sprintf("%x", r.Bytes(32))
+	case 3:
+		m["fingerprint"] = r.PickString([]string{"", "zz", "2B280B23", fmt.Sprintf("%x", r.Bytes(21)), fmt.Sprintf("%x", r.Bytes(40))})
+	}
 	j, _ := json.Marshal(m)
 	return append([]byte("1.0\n"), j...)
 }
